@@ -333,6 +333,69 @@ func (s *State) Missing(d string) []string {
 	return out
 }
 
+// Reach adds every digest named by the closure of manifest d (d included,
+// present or not) to into; it descends only into manifests that are present.
+func (s *State) Reach(d string, into map[string]bool) {
+	if into[d] {
+		return
+	}
+	into[d] = true
+	b, ok := s.blob(d)
+	if !ok {
+		return
+	}
+	var m struct {
+		Manifests []struct {
+			MediaType string `json:"mediaType"`
+			Digest    string `json:"digest"`
+		} `json:"manifests"`
+		Config *struct {
+			Digest string `json:"digest"`
+		} `json:"config"`
+		Layers []struct {
+			Digest string `json:"digest"`
+		} `json:"layers"`
+		Blobs []struct {
+			Digest string `json:"digest"`
+		} `json:"blobs"`
+	}
+	if json.Unmarshal(b, &m) != nil {
+		return
+	}
+	for _, c := range m.Manifests {
+		if isManifestType(c.MediaType) {
+			s.Reach(c.Digest, into)
+		} else if c.Digest != "" {
+			into[c.Digest] = true
+		}
+	}
+	if m.Config != nil && m.Config.Digest != "" {
+		into[m.Config.Digest] = true
+	}
+	for _, l := range m.Layers {
+		if l.Digest != "" {
+			into[l.Digest] = true
+		}
+	}
+	for _, l := range m.Blobs {
+		if l.Digest != "" {
+			into[l.Digest] = true
+		}
+	}
+}
+
+// ReachIndex is everything reachable from the entries of index.json.
+func (s *State) ReachIndex() map[string]bool {
+	out := map[string]bool{}
+	for _, d := range s.Tags {
+		s.Reach(d, out)
+	}
+	for d := range s.Untagged {
+		s.Reach(d, out)
+	}
+	return out
+}
+
 // isFallbackTag recognises the referrers fallback tag "<alg>-<hex>" (no suffix).
 func isFallbackTag(t string) bool {
 	i := strings.IndexByte(t, '-')
